@@ -6,7 +6,7 @@ Require Import Stab Act Spec SpecProofs Gen_GateTable Gen_RevTrack GenProofs_Rev
 Require GenProofs_TabMeas.
 Require Gen_AddError GenProofs_AddError.
 Require Mpp MppRev.
-Require Pauli Sem Refine Run FrameRun RevTrack FrameProg RevProg.
+Require Pauli Sem Refine Run FrameRun RevTrack FrameProg RevProg DemSample DemBridge.
 
 (* (1) Tie G: every unitary undo_* routine of the reverse tracker (translated from sparse_rev_frame_tracker.cc), applied per
        detector to (d in xs[q], d in zs[q]), is the unsigned action of the table's INVERSE gate; nothing refused, nothing
@@ -160,3 +160,20 @@ Theorem C03_flip_parity_closed_form :
   xorb (xorb (Sem.acom F (fst (RevProg.bt n prog d))) (RevProg.dotp (snd (RevProg.bt n prog d)) fl)) (RevProg.ext_par n extr exta prog d).
 Proof. exact RevProg.fparp_closed_form. Qed.
 Print Assumptions C03_detector_value_in_every_shot. Print Assumptions C03_flip_parity_closed_form.
+
+(* The detector error model of a program: error j has as symptoms the detectors whose back-propagated sensitivity anticommutes
+   with the Pauli of fault j.  For every run the semantics allows under fault bits exta, detection event i (shot value xor
+   reference value) is DemSample.shot_of that model with `fired j = bit j differs from the reference`: sampling the model and
+   sampling the circuit agree shot by shot (C03 meets C16). *)
+Theorem C03_circuit_shots_are_the_shots_of_its_error_model :
+  forall (n : nat) (extr exta : nat -> bool) (prog : list FrameProg.pop) (ds : list (list bool)) (js : list nat)
+         (l la : list (Run.op * option bool)) (s s' : (Pauli.pauli -> Pauli.pauli) * (Pauli.pauli -> Pauli.pauli)) (Sg S' : Sem.state) (i : nat),
+  Forall (FrameProg.okp n) prog -> Run.good n (fst s) (snd s) -> Run.Inv n (fst s) Sg ->
+  FrameProg.realize extr [] prog l -> Run.sim_run n s l s' -> FrameProg.realize exta [] prog la -> Run.sem_run Sg la S' ->
+  NoDup js -> DemBridge.faults_in prog js -> (i < List.length ds)%nat ->
+  RevProg.gauge_okp n prog (nth i ds []) ->
+  (forall g, Refine.wf n g -> Sg g -> Sem.acom g (fst (RevProg.bt n prog (nth i ds []))) = false) ->
+  xorb (RevTrack.par_rec la (nth i ds [])) (RevTrack.par_rec l (nth i ds [])) =
+  DemSample.shot_of (DemBridge.dem_of n extr exta prog ds js) (DemBridge.tgt i).
+Proof. exact DemBridge.circuit_shot_is_dem_shot. Qed.
+Print Assumptions C03_circuit_shots_are_the_shots_of_its_error_model.
